@@ -90,6 +90,9 @@ pub struct CardCfg {
     /// the card answers CMD59 (CRC_ON_OFF) with "illegal command": a host that was asked for CRC must not go on without
     #[serde(default)]
     pub cmd59_illegal: bool,
+    /// the card does not answer the first k CMD0 frames after power-up (still waking up): the driver's retry loop is for this
+    #[serde(default)]
+    pub cmd0_ignored: u8,
     pub adversary: Adversary,
 }
 
@@ -199,6 +202,10 @@ pub struct SimCard {
     pub latency_hist: [u64; 4],
     /// the bus itself failed in the middle of something: the host has no legal continuation until the card is power-cycled
     pub suspend_judgement: bool,
+    /// CMD0 into a card that signals busy is reported (switched off by the harness once a call has failed: a host
+    /// that re-initialises after an error has no better option)
+    pub strict_cmd0: bool,
+    cmd0_ignored_seen: u8,
 }
 
 pub fn default_fill(block: u64) -> [u8; 512] {
@@ -250,6 +257,8 @@ impl SimCard {
             multi_writes: 0,
             latency_hist: [0; 4],
             suspend_judgement: false,
+            strict_cmd0: true,
+            cmd0_ignored_seen: 0,
         }
     }
 
@@ -263,6 +272,7 @@ impl SimCard {
         self.app_cmd = false;
         self.acmd41_seen = 0;
         self.cmd0_seen = self.cfg.cmd0_bad_answers; // answer the first CMD0 properly from now on
+        self.cmd0_ignored_seen = self.cfg.cmd0_ignored;
         self.rx = Rx::Idle;
         { self.tx.clear(); self.watch = None; }
         self.stream_next = None;
@@ -270,6 +280,17 @@ impl SimCard {
         self.cfg.adversary = Adversary::None;
         self.cfg.slow = false;
         self.suspend_judgement = false;
+    }
+
+    /// Another card is put into the slot: new configuration, fresh contents, power-on state.
+    pub fn swap(&mut self, cfg: CardCfg) {
+        self.power_cycle();
+        self.cfg = cfg;
+        self.mem.clear();
+        self.base = None;
+        self.cmd0_seen = 0;
+        self.cmd0_ignored_seen = 0;
+        self.rng = Rng::new(self.cfg.timing_seed ^ 0x5a5a);
     }
 
     pub fn is_initialised(&self) -> bool {
@@ -435,6 +456,10 @@ impl SimCard {
             }
         }
         match (cmd, was_app) {
+            (0, _) if self.cmd0_ignored_seen < self.cfg.cmd0_ignored => {
+                // still waking up: this CMD0 goes unanswered
+                self.cmd0_ignored_seen += 1;
+            }
             (0, _) => {
                 self.spi_mode = true;
                 self.idle = true;
@@ -644,7 +669,7 @@ impl SimCard {
             Rx::Idle => {
                 if mosi & 0xC0 == 0x40 {
                     let cmd = mosi & 0x3F;
-                    if busy_byte && cmd != 0 {
+                    if busy_byte && (cmd != 0 || self.strict_cmd0) {
                         self.err(format!("CMD{} sent while the card signals busy", cmd));
                     }
                     if self.stream_next.is_none() && cmd != 12 && cmd != 0 && (self.tx.iter().any(|&b| b != 0xFF) || (out_from_tx && out != 0xFF)) {
